@@ -21,25 +21,25 @@ MODEL_TRUST = ["modelled, not verified: Go maps and slices as association lists 
 
 PROPS = {
     "C01": dict(
-        props_files=["Avfs/Props/C01.lean"],
-        parts=[dict(name="memfs"), dict(name="kernel"), dict(name="orefa"), dict(name="kernel-orefa")],
+        props_files=["Avfs/Props/C01.lean", "Avfs/Props/C01_more.lean"],
+        parts=[dict(name="memfs"), dict(name="memfs-small"), dict(name="kernel-small", only_tier="thorough"), dict(name="kernel"), dict(name="orefa"), dict(name="kernel-orefa")],
         trusted=MODEL_TRUST + ["oracle: the Linux kernel through OsFS / package os in a chroot-ed child process on a fresh tmpfs directory (corr kernel): MemFS itself, not the model, is compared call by call and tree by tree"],
         assumptions=["administrator; Linux emulation; the root directory is not an operand of remove/rename in the kernel comparison (the oracle's scratch root is not a file-system root)", "set-id bits are not generated in the kernel comparison (kernel-specific inheritance / clearing rules)"],
         not_yet_proved=["MemFS = POSIX reference is proved for Mkdir, Remove, Stat/Lstat, OpenFile (every flag value), Link, Truncate, Chmod, Chown (administrator) and Rename (file and directory sources) on clean absolute paths that meet no symbolic link (C01_*_posix over the component-wise resolution walkPath; the corners where MemFS deviates are explicit hypotheses with kernel-checked witnesses); RemoveAll, MkdirAll, Symlink/Readlink, the composites, paths through links, relative paths: equality with Linux is carried by the direct impl≟kernel oracle run and its ledger of divergence classes", "OrefaFS: executable model (Avfs/FS/Orefa.lean) tied by corr orefa (tree + path index after every call) and compared with the kernel by corr kernel-orefa; no theorems about it yet"],
     ),
     "C04": dict(
-        props_files=["Avfs/Props/C04.lean"],
+        props_files=["Avfs/Props/C04.lean", "Avfs/Props/C04_links.lean"],
         parts=[dict(name="memfs"), dict(name="kernel-links"), dict(name="path", tags="verif,avfs_setostype")],
         trusted=MODEL_TRUST + ["oracle: the Linux kernel and filepath.EvalSymlinks in a chroot-ed child on tmpfs"],
         assumptions=["link chains up to 42 around the budget of 40; random relative / absolute / dangling / cyclic targets"],
         not_yet_proved=["searchNode ≃ namei (structural kernel-style resolution) — the equality with the kernel is carried by the oracle run", "follow-mode never returns a link; readlink (symlink t n) = clean t as theorems"],
     ),
     "C05": dict(
-        props_files=["Avfs/Props/C05.lean"],
-        parts=[dict(name="memfs"), dict(name="memfs-perm"), dict(name="memfs-views"), dict(name="orefa")],
+        props_files=["Avfs/Props/C05.lean", "Avfs/Props/C05_rename.lean"],
+        parts=[dict(name="memfs"), dict(name="memfs-perm"), dict(name="memfs-small"), dict(name="memfs-views"), dict(name="orefa")],
         trusted=MODEL_TRUST + ["wfCheck (the executable invariant) is evaluated by the Lean driver on the node graph dumped from the implementation after every call"],
         assumptions=["sequential histories (concurrent executions: C06)", "views whose root directory has been removed through another view are outside the theorem (kernel-checked witness C05_detached_view_witness)"],
-        not_yet_proved=["RenameSafe (the path-prefix test of Rename implies the graph condition)", "wfCheck complete for WF (soundness is C05_wfCheck_sound)", "frame property (a successful call changes only the entries it names)", "OrefaFS: the invariant (tree ≟ path index, link counts = number of keys) is proved for every reachable state of the MODEL (C05_orefa_reachable); on the implementation it is the consistency oracle evaluated after every call (corr orefa)"],
+        not_yet_proved=["the reachable-state theorem for MemFS (C05_reachable_wf) excludes Sub (detached views: witness C05_reachable_sub_witness)", "wfCheck complete for WF (soundness is C05_wfCheck_sound)", "frame property (a successful call changes only the entries it names)", "OrefaFS: the invariant (tree ≟ path index, link counts = number of keys) is proved for every reachable state of the MODEL (C05_orefa_reachable); on the implementation it is the consistency oracle evaluated after every call (corr orefa)"],
     ),
     "C06": dict(
         props_files=["Avfs/Props/C06.lean"],
@@ -65,7 +65,7 @@ PROPS = {
         race=[("memidm", "", 2), ("memfs", CLEAN, 2), ("memfs", "mkdir,remove", 2), ("orefafs", "mkdir,remove", 2)],
         lin=[("memfs", "deadlock", 25000)],
         props_files=["Avfs/Props/C07.lean"],
-        parts=[dict(name="memfs"), dict(name="memfs-files"), dict(name="orefa"), dict(name="failfs"), dict(name="rofs"), dict(name="bpfs"), dict(name="path", tags="verif,avfs_setostype")],
+        parts=[dict(name="memfs"), dict(name="memfs-files"), dict(name="memfs-small"), dict(name="orefa"), dict(name="failfs"), dict(name="rofs"), dict(name="bpfs"), dict(name="path", tags="verif,avfs_setostype")],
         trusted=MODEL_TRUST,
         assumptions=["part (a) only: sequential no-panic / no-hang; interleavings (b)(c) are C06/C08 work in progress"],
         not_yet_proved=["ranked lock acquisition of the real functions (generic theorem ranked_deadlock_free is proved in Avfs/Conc; the per-function rank obligations need the lock-skeleton translator)", "no-panic as a theorem for the OrefaFS model (the model has panic / hang outcomes exactly where the Go code would; the correspondence reports any it meets), RoFS, BasePathFS, FailFS"],
@@ -79,15 +79,15 @@ PROPS = {
         not_yet_proved=["chroot simulation as a theorem (bpfs_sim): carried by the lockstep run against a standalone file system"],
     ),
     "C11": dict(
-        props_files=["Avfs/Props/C11.lean"],
-        parts=[dict(name="memfs-views")],
+        props_files=["Avfs/Props/C11.lean", "Avfs/Props/C11_more.lean"],
+        parts=[dict(name="memfs-views"), dict(name="memfs-small-views")],
         trusted=MODEL_TRUST,
         assumptions=["views are records over one shared heap, as `subFS := *vfs` copies them"],
-        not_yet_proved=["sub_sim is proved for resolution, Mkdir, Remove and Stat on clean absolute link-free paths (C11_sub_sim_*); for the other calls, relative paths and paths through links it is decided on the implementation by the twin simulation", "sub_confined in the graph sense (Desc of the view root)"],
+        not_yet_proved=["sub_sim is proved for resolution and Mkdir, Remove, Stat, Lstat, Readlink, ReadDir, Chtimes, Chmod, Chown, Truncate, Symlink, Link, OpenFile, MkdirAll, Rename, RemoveAll on clean absolute link-free paths (C11_sub_sim_*: same result AND same new heap); for relative paths, paths through links and handle operations it is decided on the implementation by the twin simulation", "sub_confined in the graph sense (Desc of the view root)"],
     ),
     "C14": dict(
-        props_files=["Avfs/Props/C14.lean"],
-        parts=[dict(name="memfs-enum"), dict(name="kernel-enum")],
+        props_files=["Avfs/Props/C14.lean", "Avfs/Props/C14_walk.lean"],
+        parts=[dict(name="memfs-enum"), dict(name="memfs-small"), dict(name="kernel-enum")],
         trusted=MODEL_TRUST + ["oracle: filepath.Glob, filepath.WalkDir, os.ReadDir through OsFS in a chroot-ed child on tmpfs; callbacks return SkipDir / SkipAll / an error at generated visit indexes"],
         assumptions=["MemFS only (the helpers are generic functions of vfs.go; other file systems run them over their own primitives)", "Linux pattern syntax"],
         not_yet_proved=["walk_spec (visited sequence = preorder of the tree cut by the actions) beyond the flat case", "glob_spec (set-level characterisation of the matches)"],
@@ -101,14 +101,14 @@ PROPS = {
     ),
     "C02": dict(
         props_files=["Avfs/Props/C02.lean"],
-        parts=[dict(name="memfs-files"), dict(name="kernel-files"), dict(name="orefa"), dict(name="kernel-orefa")],
+        parts=[dict(name="memfs-files"), dict(name="memfs-small"), dict(name="kernel-small", only_tier="thorough"), dict(name="kernel-files"), dict(name="orefa"), dict(name="kernel-orefa")],
         trusted=MODEL_TRUST + ["oracle: *os.File through OsFS in a chroot-ed child process on a fresh tmpfs directory"],
         assumptions=["file sizes far below 2^31", "one process; handles interleaved sequentially"],
         not_yet_proved=["OrefaFS handles: executable model tied by corr orefa and compared with os.File by corr kernel-orefa; theorems are stated for the MemFS handle model", "directory handles: one pass is proved (C02_readdir_batches); rewinding differs from os.File (recorded finding dir-handle-rewinds)"],
     ),
     "C03": dict(
         props_files=["Avfs/Props/C03.lean"],
-        parts=[dict(name="memfs-perm"), dict(name="kernel-perm")],
+        parts=[dict(name="memfs-perm"), dict(name="memfs-small"), dict(name="kernel-small", only_tier="thorough"), dict(name="kernel-perm")],
         trusted=MODEL_TRUST,
         assumptions=["one group per user, no ACLs, no capabilities other than the administrator's override"],
         trusted_extra=["oracle: the Linux kernel in a chroot-ed child on tmpfs acting under setfsuid/setfsgid (raw per-thread syscalls, supplementary groups dropped) for every generated user"],
